@@ -28,10 +28,56 @@ fn raw_stream(g: &mut Gen, st: &mut Stats) -> CaseResult {
     Ok(())
 }
 
+/// The documented default maximum (512 KiB) of all four endpoints, at the boundary: a frame of exactly 512 KiB passes,
+/// one byte more is refused with InvalidLen (writer: nothing emitted; reader: nothing allocated for it).
+fn default_max_len(i: u64, st: &mut Stats) -> CaseResult {
+    use minicbor::bytes::ByteVec;
+    use minicbor_io::{AsyncReader, AsyncWriter, Error, Reader, Writer};
+    use std::future::Future;
+    use std::task::{Context, Poll, Waker};
+    st.eval();
+    const MAX: usize = 512 * 1024;
+    let over = i % 2 == 1;
+    let enc_len = if over { MAX + 1 } else { MAX };
+    let v = ByteVec::from(vec![0x5au8; enc_len - 5]); // 5a + 4 length bytes + payload
+    let enc = minicbor::to_vec(&v).map_err(|e| vcore::Fail::new("encode", e.to_string()))?;
+    if enc.len() != enc_len { return Err(vcore::Fail::new("harness-bug", format!("encoding is {} bytes, wanted {}", enc.len(), enc_len))) }
+    let mut frame = (enc_len as u32).to_be_bytes().to_vec();
+    frame.extend_from_slice(&enc);
+    // minimal always-ready transports
+    struct Src(Vec<u8>, usize);
+    impl futures_io::AsyncRead for Src { fn poll_read(mut self: std::pin::Pin<&mut Self>, _: &mut Context<'_>, b: &mut [u8]) -> Poll<std::io::Result<usize>> { let n = b.len().min(self.0.len() - self.1); let p = self.1; b[.. n].copy_from_slice(&self.0[p .. p + n]); self.1 += n; Poll::Ready(Ok(n)) } }
+    struct Snk(Vec<u8>);
+    impl futures_io::AsyncWrite for Snk {
+        fn poll_write(mut self: std::pin::Pin<&mut Self>, _: &mut Context<'_>, b: &[u8]) -> Poll<std::io::Result<usize>> { self.0.extend_from_slice(b); Poll::Ready(Ok(b.len())) }
+        fn poll_flush(self: std::pin::Pin<&mut Self>, _: &mut Context<'_>) -> Poll<std::io::Result<()>> { Poll::Ready(Ok(())) }
+        fn poll_close(self: std::pin::Pin<&mut Self>, _: &mut Context<'_>) -> Poll<std::io::Result<()>> { Poll::Ready(Ok(())) }
+    }
+    fn block<F: Future>(f: F) -> F::Output { let mut f = Box::pin(f); let mut cx = Context::from_waker(Waker::noop()); loop { if let Poll::Ready(x) = f.as_mut().poll(&mut cx) { return x } } }
+    let want = |what: &str, ok: bool, invalid_len: bool| -> CaseResult {
+        if over { if !invalid_len { return Err(vcore::Fail::new("default-max-len", format!("{}: a frame of 512 KiB + 1 byte was not refused with InvalidLen by the default maximum", what))) } }
+        else if !ok { return Err(vcore::Fail::new("default-max-len", format!("{}: a frame of exactly 512 KiB was refused by the default maximum", what))) }
+        Ok(())
+    };
+    match (i / 2) % 4 {
+        0 => { let mut w = Writer::new(Vec::new()); let r = w.write(&v); want("Writer", matches!(r, Ok(n) if n == enc_len), matches!(r, Err(Error::InvalidLen)))?; if over && !w.writer().is_empty() { return Err(vcore::Fail::new("writer-emitted-oversize", format!("the default writer emitted {} bytes of an over-long frame", w.writer().len()))) } if !over && w.writer() != &frame { return Err(vcore::Fail::new("writer-bytes", "frame bytes differ".to_string())) } }
+        1 => { let mut r = Reader::new(&frame[..]); let x = r.read::<ByteVec>(); want("Reader", matches!(&x, Ok(Some(b)) if b.len() == enc_len - 5), matches!(x, Err(Error::InvalidLen)))? }
+        2 => { let mut w = AsyncWriter::new(Snk(Vec::new())); let r = block(w.write(&v)); want("AsyncWriter", matches!(r, Ok(n) if n == enc_len), matches!(r, Err(Error::InvalidLen)))?; let (snk, _) = w.into_parts(); if over && !snk.0.is_empty() { return Err(vcore::Fail::new("writer-emitted-oversize", format!("the default async writer emitted {} bytes of an over-long frame", snk.0.len()))) } if !over && snk.0 != frame { return Err(vcore::Fail::new("writer-bytes", "frame bytes differ".to_string())) } }
+        _ => { let mut r = AsyncReader::new(Src(frame.clone(), 0)); let x = block(r.read::<ByteVec>()); want("AsyncReader", matches!(&x, Ok(Some(b)) if b.len() == enc_len - 5), matches!(x, Err(Error::InvalidLen)))? }
+    }
+    st.nontrivial_enum(1);
+    st.class(if over { "default-max-len/one byte over" } else { "default-max-len/exactly 512 KiB" });
+    Ok(())
+}
+
 fn subs() -> Vec<Sub> {
     let mut v = blocking::subs();
     v.push(Sub { prop: "C14", name: "raw-stream", rule: "random byte streams into a reader with max_len 16: never an allocation sized by the prefix (also the replay entry for abnormal exits)",
                  kind: Kind::Random { quick: 100_000, thorough: 500_000, tape: 64, f: raw_stream } });
+    for p in ["C14", "C15", "C16"] {
+        v.push(Sub { prop: p, name: "default-max-len", rule: "the documented default maximum of 512 KiB on Writer, Reader, AsyncWriter and AsyncReader: a frame of exactly 512 KiB passes, 512 KiB + 1 is refused with InvalidLen and nothing is emitted",
+                     kind: Kind::Enumerate { quick: 8, thorough: 8, f: default_max_len, complete_quick: true, complete_thorough: true } });
+    }
     v.extend(aread::subs());
     v.extend(awrite::subs());
     v
